@@ -21,12 +21,15 @@ var (
 	reUnformat = regexp.MustCompile(`unable to format (?:the output for|file) "([^"]*)"`)
 )
 
-func c10errs(err error) string {
+// c10errs: which files the error names, and as what.  A file that is named in an unknown wording
+// becomes the wildcard (? name), which matches whatever the model says about that file.
+func c10errs(err error, names []string) string {
 	if err == nil {
 		return list()
 	}
 	m := err.Error()
 	var it []string
+	defer func() { _ = it }()
 	base := func(s string) string { return s[strings.LastIndex(s, "/")+1:] }
 	for _, x := range reMissing.FindAllStringSubmatch(m, -1) {
 		it = append(it, base(x[1])+":m\x00"+tag("missing", atom(base(x[1]))))
@@ -37,8 +40,19 @@ func c10errs(err error) string {
 	for _, x := range reUnformat.FindAllStringSubmatch(m, -1) {
 		it = append(it, base(x[1])+":u\x00"+tag("unformattable", atom(base(x[1]))))
 	}
+	for _, n := range names {
+		classified := false
+		for _, x := range it {
+			if strings.HasPrefix(x, n+":") {
+				classified = true
+			}
+		}
+		if !classified && strings.Contains(m, n) {
+			it = append(it, n+":?\x00"+tag("?", atom(n)))
+		}
+	}
 	if len(it) == 0 {
-		return list(tag("other", atom(m)))
+		return list(tag("?", atom(m)))
 	}
 	sort.Strings(it)
 	for i := range it {
@@ -196,7 +210,7 @@ func c10(g *Gen) {
 			if kind == "verify" && err != nil {
 				cls = append(cls, "verify-fails")
 			}
-			g.Emit("C10.step", list(num(mode), before.sexp(), list(wanted...)), list(after.sexp(), c10errs(err)), cls...)
+			g.Emit("C10.step", list(num(mode), before.sexp(), list(wanted...)), list(after.sexp(), c10errs(err, names)), cls...)
 			if kind == "verify" {
 				// read-only: nothing created, truncated or touched (names, sizes, mtimes, hashes, directory)
 				_, outErr := os.Stat(out)
